@@ -152,11 +152,18 @@ def structures():
         return {"first_element_address": first, "num_elements": num,
                 "element_status_pages": [{"element_type": p["element_type"], "pvoltag": p["pvoltag"], "avoltag": p["avoltag"],
                                           "element_descriptors": [dict(e) for e in p["elements"]]} for p in pages]}
+
+    def es_compare(got, d):
+        # exactly the keys of each descriptor's element type come back (no fields of other types)
+        want = dict(d, element_status_pages=[dict(p, element_descriptors=[dict(e, **{"$exact": True}) for e in p["element_descriptors"]])
+                                               for p in d["element_status_pages"]])
+        return respgen.compare(got, want)
     pages = st.lists(respgen.element_page().map(lambda p: dict(p, extra_len=4)), max_size=3)
     es = st.tuples(fv(16), fv(16), pages)
     out["readelementstatus"] = dict(values=es.map(es_lib), marshall=E.marshall_datain, unmarshall=E.unmarshall_datain,
                                     canon=es.map(lambda t: bytes(R.element_status(t[0], t[1], t[2]))),
-                                    nd=lambda v: sum(len(p["element_descriptors"]) for p in v["element_status_pages"]))
+                                    nd=lambda v: sum(len(p["element_descriptors"]) for p in v["element_status_pages"]),
+                                    compare=es_compare)
     RFS = L("scsi_cdb_persistentreservein", "PersistentReserveInReadFullStatus")
     long_names = st.one_of(respgen.tid_strategy().filter(lambda t: t["protocol_id"] != 5),
                            st.fixed_dictionaries({"protocol_id": st.just(5), "tpid_format": st.just(0),
